@@ -103,6 +103,8 @@ def run(ctx):
     n = 0
     for bind in bindings():
         ops = [("u.laws=", u, l) for u in US for l in LS + (None,)] + [("L.applies_to=", l, u) for l in LS for u in US + (None,)]
+        # the same assignments written in key style (BaseObject supports obj["name"] = value as attribute access by key)
+        ops += [("u['laws']=", u, l) for u in US for l in ("L1", "L3", None)] + [("L['applies_to']=", l, u) for l in ("L1", "L3") for u in US + (None,)]
         ops += [("Universe()", None, None)] + [("Universe(laws=)", None, l) for l in LS]
         for op, x, y in ops:
             p = Pre(h, bind)
@@ -114,6 +116,12 @@ def run(ctx):
                     m_bind(model, x, y) if y else m_detach_u(model, x)
                 elif op == "L.applies_to=":
                     out = h.setattr(p.O[x], "applies_to", p.O[y] if y else None)
+                    m_bind(model, y, x) if y else m_detach_l(model, x)
+                elif op == "u['laws']=":
+                    out = setitem(h, p.O[x], "laws", p.O[y] if y else None)
+                    m_bind(model, x, y) if y else m_detach_u(model, x)
+                elif op == "L['applies_to']=":
+                    out = setitem(h, p.O[x], "applies_to", p.O[y] if y else None)
                     m_bind(model, y, x) if y else m_detach_l(model, x)
                 elif op == "Universe()":
                     out = h.call(h.cls("Universe"))
@@ -160,7 +168,16 @@ def run(ctx):
                     elif post != model:
                         why = "differs from the model: " + "; ".join(f"{k}.{n}: {post[k].get(n)} vs {model[k].get(n)}" for k in post for n in set(post[k]) | set(model[k]) if post[k].get(n) != model[k].get(n))
             cur_u = bind.get(x) if op == "u.laws=" else None
-            cls = classify(op, x, y, bind)
+            keystyle = "[" in op
+            if keystyle:
+                # through the accessors as well: a key-style store must not leave a shadow entry that hides the property
+                for u_ in US:
+                    g_ = h.getattr(p.O[u_], "laws")
+                    want_ = model["laws"][u_]
+                    if why is None and not (g_.kind == "return" and ((g_.value is None and want_ is None) or (isinstance(g_.value, Obj) and g_.value.name == want_))):
+                        why = f"afterwards {u_}.laws reads {g_!r}, the model has {want_}"
+                op = {"u['laws']=": "u.laws=", "L['applies_to']=": "L.applies_to="}[op]
+            cls = classify(op, x, y, bind) + (",key-style-assignment" if keystyle else "")
             res.ob(why is None, sig=(tuple(sorted(bind.items())), op, x, y), sample={"binding": bind, "call": op, "target": x, "value": y, "outcome": repr(out), "post": post})
             if why:
                 res.violation("I19-STEP", {"u.laws=": UNI + ".laws[set]", "L.applies_to=": LAWS + ".applies_to[set]"}.get(op, UNI + ".__init__"), cls,
@@ -170,6 +187,15 @@ def run(ctx):
     common.vacuity(res, "I19-STEP", 150)
     res.analysed = common.analysed(ctx, [UNI + ".__init__", LAWS + ".__init__"])
     res.explanation = "Both setters and the constructor keep the binding a partial bijection from every consistent pre-state, so it holds after every sequence of assignments."
+
+
+def setitem(h, o, key, v):
+    from sa.harness import Outcome
+    try:
+        h.I.setitem(o, key, v)
+        return Outcome("return", None)
+    except Raised as r:
+        return Outcome("raise", exc=r.exc)
 
 
 def m_detach_u(st, u):
@@ -204,7 +230,7 @@ def replay(bind, op, x, y):
     L = ["from edgegraph.structure.universe import Universe, UniverseLaws", "L1, L2, L3 = UniverseLaws(), UniverseLaws(), UniverseLaws()"]
     for u in US:
         L.append(f"{u} = Universe(laws={bind[u]})" if bind[u] else f"{u} = Universe(); {u}.laws = None")
-    L.append({"u.laws=": f"{x}.laws = {y}", "L.applies_to=": f"{x}.applies_to = {y}", "Universe()": "n = Universe()", "Universe(laws=)": f"n = Universe(laws={y})"}[op])
+    L.append({"u.laws=": f"{x}.laws = {y}   # or {x}['laws'] = {y}", "L.applies_to=": f"{x}.applies_to = {y}   # or {x}['applies_to'] = {y}", "Universe()": "n = Universe()", "Universe(laws=)": f"n = Universe(laws={y})"}[op])
     L.append("for u in (u1, u2): print(u.laws, u.laws and u.laws.applies_to is u)")
     L.append("for l in (L1, L2, L3): print(l.applies_to, l.applies_to and l.applies_to.laws is l)")
     return "\n".join(L)
@@ -257,6 +283,32 @@ def readonly(ctx, h, res):
         res.ob(ok2, sig=("readonly", a))
         if not ok2:
             res.violation("READONLY", LAWS + "." + a, "assign", f"after assigning (-> {s!r}) and deleting (-> {dl}) UniverseLaws.{a} the attribute reads {g2!r}: rule attributes cannot be changed after construction")
+    # an empty whitelist reads back empty whatever the caller later does with the dictionary it passed
+    for label, arg in (("empty", DictV()), ("empty-inner", DictV([[K1, DictV()]]))):
+        try:
+            o2 = h.call(lawcls, edge_whitelist=arg)
+            if o2.kind == "return":
+                target = arg if label == "empty" else arg.pairs[0][1]
+                h.I.setitem(target, K2, DictV([[K1, K3]]) if label == "empty" else K3)
+                g3 = h.getattr(o2.value, "edge_whitelist")
+                n += 1
+                size = None
+                if g3.kind == "return":
+                    d_ = g3.value.d if isinstance(g3.value, ProxyV) else g3.value
+                    d_ = d_.d if isinstance(d_, ProxyV) else d_
+                    if label == "empty":
+                        size = len(d_.pairs) if isinstance(d_, DictV) else None
+                    else:
+                        inner_ = d_.pairs[0][1] if isinstance(d_, DictV) and d_.pairs else None
+                        inner_ = inner_.d if isinstance(inner_, ProxyV) else inner_
+                        size = len(inner_.pairs) if isinstance(inner_, DictV) else None
+                ok = size == 0
+                res.ob(ok, sig=("readback-after-caller-mutation", label))
+                if not ok:
+                    res.violation("READONLY", LAWS + ".edge_whitelist", f"caller-mutates-{label}-whitelist-afterwards",
+                                  f"UniverseLaws(edge_whitelist=w) with an {label.replace('-', ' ')} dictionary w; after the caller adds an entry to w, edge_whitelist reads {g3!r}: the rule attributes read back exactly what was passed at construction and cannot be changed afterwards")
+        except Unknown as u:
+            res.undecide(f"UniverseLaws(edge_whitelist={label}): {u}")
     # default construction reads back the documented defaults (None whitelist)
     out = h.call(lawcls)
     if out.kind == "return":
